@@ -372,3 +372,37 @@ func VerifH_C16_order_insensitive() {
 	sort.Strings(ids1)
 	verifrt.Assert(strings.Join(ids0, ",") == strings.Join(ids1, ","), "the output schemas do not depend on map iteration order")
 }
+
+// C10: an expression with several references gets a dependency for each of them, also when one of
+// them duplicates a dependency the same stage already has through another field.
+func VerifH_C10_multi_reference() {
+	run := newRun()
+	order := verifrt.Choice("order", 2)
+	dup := vx("steps", "a", "outputs", "success", "v")
+	other := vx("steps", "c", "outputs", "success", "v")
+	var expr *verifExpr
+	if order == 0 {
+		expr = vx2(dup, other)
+	} else {
+		expr = vx2(other, dup)
+	}
+	t := tWorkflow{
+		steps: []tStep{
+			{id: "a", fields: map[string]any{"input": verifStepInput(vx("input"))}},
+			{id: "c", fields: map[string]any{"input": verifStepInput(vx("input"))}},
+			{id: "b", fields: map[string]any{"input": []any{vx("steps", "a", "outputs", "success", "flag"), expr}}},
+		},
+		outputs: map[string]any{"success": map[any]any{"r": vx("steps", "b", "outputs", "success", "v")}},
+	}
+	ew, err := verifExecutor(run).Prepare(verifWorkflow(t), nil)
+	verifrt.Assert(err == nil, "the workflow is accepted")
+	if err != nil {
+		return
+	}
+	n, gerr := ew.DAG().GetNodeByID("steps.b.starting")
+	verifrt.Assert(gerr == nil, "stage node exists")
+	deps := n.OutstandingDependencies()
+	_, hasA := deps["steps.a.outputs.success"]
+	_, hasC := deps["steps.c.outputs.success"]
+	verifrt.Assert(hasA && hasC, "every reference of a multi-reference expression has its dependency")
+}
